@@ -25,6 +25,7 @@ class Assembler:
         self.nesting = nesting or {}   # label -> set of enclosing defer labels
         self.stream_items = {}      # id -> number of items delivered incrementally
         self.events = []            # compact trace of what was seen
+        self.just_announced = []
 
     def bad(self, mech, **detail):
         self.problems.append((mech, detail))
@@ -37,6 +38,7 @@ class Assembler:
         if 'hasNext' in r and r['hasNext'] is not True:
             self.bad('has-next:false-on-initial-incremental-result')
         self.announce(r.get('pending') or [])
+        self.check_nesting()
         if not r.get('pending'):
             self.bad('initial-incremental-result-without-pending')
 
@@ -57,12 +59,21 @@ class Assembler:
             self.seen_ids.add(i)
             path = list(p.get('path', []))
             label = p.get('label')
-            # a nested fragment must not be announced while an announced enclosing fragment is still pending
-            for other in self.pending.values():
-                if other['label'] is not None and label is not None and other['label'] in self.nesting.get(label, ()) \
-                        and other['path'] == path[:len(other['path'])]:
-                    self.bad('pending:nested-announced-while-enclosing-pending', id=i, label=label, enclosing=other['label'])
             self.pending[i] = {'path': path, 'label': label}
+            self.just_announced.append(i)
+
+    def check_nesting(self):
+        """A nested fragment must not be announced while an announced enclosing fragment is still pending.
+        Judged at the end of a payload: a parent completed in the same payload is not pending any more."""
+        for i in self.just_announced:
+            me = self.pending.get(i)
+            if me is None or me['label'] is None:
+                continue
+            for j, other in self.pending.items():
+                if j != i and other['label'] is not None and other['label'] in self.nesting.get(me['label'], ()) \
+                        and other['path'] == me['path'][:len(other['path'])]:
+                    self.bad('pending:nested-announced-while-enclosing-pending', id=i, label=me['label'], enclosing=other['label'])
+        self.just_announced = []
 
     def locate(self, path):
         cur = self.data
@@ -117,6 +128,7 @@ class Assembler:
                 self.failed.append({'id': i, **info, 'errors': c['errors']})
             else:
                 self.succeeded.append({'id': i, **info})
+        self.check_nesting()
         if r.get('hasNext') is False:
             self.finished = True
             if self.pending:
@@ -163,6 +175,13 @@ def defer_label_nesting(doc):
                         return a.value.value
         return None
 
+    def note(lab, enclosing):
+        # a label may occur at several places (reused fragments): only what encloses EVERY occurrence counts
+        if lab in nesting:
+            nesting[lab] &= set(enclosing)
+        else:
+            nesting[lab] = set(enclosing)
+
     def walk(ss, enclosing, seen):
         for sel in ss.selections:
             if isinstance(sel, A.FieldNode):
@@ -171,12 +190,12 @@ def defer_label_nesting(doc):
             elif isinstance(sel, A.InlineFragmentNode):
                 lab = label_of(sel)
                 if lab is not None:
-                    nesting.setdefault(lab, set()).update(enclosing)
+                    note(lab, enclosing)
                 walk(sel.selection_set, enclosing | ({lab} if lab else set()), seen)
             else:
                 lab = label_of(sel)
                 if lab is not None:
-                    nesting.setdefault(lab, set()).update(enclosing)
+                    note(lab, enclosing)
                 fr = frags.get(sel.name.value)
                 if fr is not None and sel.name.value not in seen:
                     walk(fr.selection_set, enclosing | ({lab} if lab else set()), seen | {sel.name.value})
